@@ -354,7 +354,12 @@ func xyzToFaceSiTi(p Point) (face int, si, ti uint32, level int) {
 	// not idempotent. On the other hand, the center is computed exactly the same
 	// way p was originally computed (if it is indeed the center of a Cell);
 	// the comparison can be exact.
-	if p.Vector == faceSiTiToXYZ(face, si, ti).Normalize() {
+	// The comparison must be bitwise: == treats +0 and -0 as equal, and a
+	// point such as (0,1,0) would then be taken for the face centre (-0,1,0)
+	// and come back from the compressed encoding with the signs of its zero
+	// coordinates changed.
+	if c := faceSiTiToXYZ(face, si, ti).Normalize(); math.Float64bits(p.X) == math.Float64bits(c.X) &&
+		math.Float64bits(p.Y) == math.Float64bits(c.Y) && math.Float64bits(p.Z) == math.Float64bits(c.Z) {
 		return face, si, ti, level
 	}
 
